@@ -7,7 +7,7 @@ from ..core import Check, derive_seed
 
 def run(check):
     check.rule = ("the runner is rebuilt with -race (instrumented engine files included) and executes: generated run-mode cases of all shapes with failures, "
-                  "random delay plans, cancellation at logical instants, overlapping Execute calls on one prepared workflow, and the parallel-API workload "
+                  "random delay plans, cancellation at logical instants, stop conditions (before start, while running, before deployment), overlapping Execute calls on one prepared workflow, and the parallel-API workload "
                   "(several goroutines doing FromYAML+Prepare+Execute of equal texts, sharing one step registry), also as the very first action of a fresh process; GORACE=halt_on_error=0 log_path=..., reports "
                   "are counted from the log files and de-duplicated by the innermost engine frame pair; a report is a violation if either stack has a frame of "
                   "go.flow.arcalot.io/engine outside the harness; non-trivial/distinct = distinct (workload family, shape) executed under the detector")
@@ -62,6 +62,19 @@ def run(check):
             case["triggers"] = g["triggers"]
         elif j % 8 == 1:
             case["runs"] = [{"input": g["input"], "parallel": True, "tag": "r%d" % q} for q in range(3)]
+        items.append((case, sem, g))
+    # stop conditions reaching a step while it waits for input, while it runs, and while it waits for its deployment configuration
+    from . import c04
+    for j in range(check.pick(45, 240)):
+        kind = j % 3
+        if kind == 0:
+            g, trig = c04.two_hop_stop(check, 7000 + j), None
+        elif kind == 1:
+            g, trig = c04.stop_while_running(check, 7000 + j)
+        else:
+            g, trig = c04.stopped_before_deployment(check, 7000 + j)
+        g["family"] = "stop-condition"
+        case, sem = runfam.build_case("c17-x%04d" % j, g, no_events=True, **({"triggers": trig} if trig else {}))
         items.append((case, sem, g))
     stats = {"families": {}}
     with harness.Runner(race=True) as rn:
